@@ -900,7 +900,7 @@ class Text(JupyterMixin):
                 line for line in self.divide(flatten_spans()) if line.plain != separator
             )
 
-        if not allow_blank and text.endswith(separator):
+        if not allow_blank and not lines[-1].plain:
             lines.pop()
 
         return lines
